@@ -60,7 +60,55 @@ def _rename_locals(root, relfile):
     return None
 
 
+VERIF = os.path.dirname(os.path.dirname(os.path.dirname(os.path.abspath(__file__))))
+
+
+def corpus_specs(prop):
+    """The kept study material as self-test cases: every seeded change (seeded/<name>/, confirmed to break a property while
+    the test suite passes) that this property's rules reported when it was taken must still be reported by them, and every
+    behaviour-preserving refactoring written against this property (neutral/<prop>*/rN.diff) must still be silent.  A patch
+    that no longer applies to /repo's current sources is skipped, never a failure."""
+    import json
+    out = []
+    try:
+        base = json.load(open(os.path.join(VERIF, "corpus_base.json"))).get("patches", {})
+    except (OSError, ValueError):
+        return out
+    sd = os.path.join(VERIF, "seeded")
+    for name in sorted(os.listdir(sd)) if os.path.isdir(sd) else []:
+        mp, pp = os.path.join(sd, name, "meta.json"), os.path.join(sd, name, "patch.diff")
+        if not (os.path.exists(mp) and os.path.exists(pp)):
+            continue
+        try:
+            rules = json.load(open(mp)).get("detected_by", {}).get(prop) or []
+        except ValueError:
+            continue
+        rules = [r for r in rules if r.startswith(prop + ".")]
+        if rules and "seeded/%s/patch.diff" % name in base:
+            out.append(dict(id="seed:" + name, kind="patch", patch=pp, expect=rules, base=base["seeded/%s/patch.diff" % name]))
+    nd = os.path.join(VERIF, "neutral")
+    whole = prop in ("C18", "C20")          # whole-program properties read every unit: every set is material for them
+    for s_ in sorted(os.listdir(nd)) if os.path.isdir(nd) else []:
+        if not (whole or s_[:3] == prop):
+            continue
+        for f in sorted(os.listdir(os.path.join(nd, s_))):
+            if f.endswith(".diff") and "neutral/%s/%s" % (s_, f) in base:
+                out.append(dict(id="neutral:%s/%s" % (s_, f[:-5]), kind="patch", patch=os.path.join(nd, s_, f), expect=None, base=base["neutral/%s/%s" % (s_, f)]))
+    return out
+
+
 def _apply(root, spec):
+    if spec.get("kind") == "patch":
+        import hashlib
+        for rel, sha in (spec.get("base") or {}).items():
+            p = os.path.join(root, rel)
+            if sha is None or not os.path.exists(p) or hashlib.sha256(open(p, "rb").read()).hexdigest() != sha:
+                return "%s differs from the tree this patch was validated against" % rel
+        r = subprocess.run(["patch", "-p1", "-s", "-f", "--no-backup-if-mismatch", "-d", root, "-i", spec["patch"]],
+                           stdout=subprocess.PIPE, stderr=subprocess.STDOUT)
+        if r.returncode != 0:
+            return "patch does not apply to the current sources"
+        return None
     if spec.get("kind") == "rename_locals":
         for f in spec["files"]:
             err = _rename_locals(root, f)
@@ -107,7 +155,9 @@ def _one(args):
             if viol:
                 return (spec["id"], "failed", "neutral edit flagged: %s %s: %s" % (viol[0].rule, viol[0].key(), viol[0].msg))
             return (spec["id"], "ok", "neutral edit: silent")
-        hits = [o for o in viol if o.rule == exp and (spec.get("site") is None or spec["site"] in o.key())]
+        exps = exp if isinstance(exp, list) else [exp]
+        hits = [o for o in viol if o.rule in exps and (spec.get("site") is None or spec["site"] in o.key())]
+        exp = "/".join(exps)
         if hits:
             return (spec["id"], "ok", "mutant reported by %s at %s: %s" % (exp, hits[0].where, hits[0].msg[:160]))
         return (spec["id"], "failed", "mutant not reported by %s (violations: %s)" %
@@ -122,6 +172,8 @@ def run(prop, mod, specs=None, only=None):
     specs = specs if specs is not None else list(getattr(mod, "SELFTEST", []))
     if getattr(mod, "RENAME_LOCALS", None) and not only:
         specs = specs + [dict(id="rename-locals-neutral", kind="rename_locals", files=list(mod.RENAME_LOCALS), expect=None)]
+    if not only and os.environ.get("PLINT_CORPUS", "1") != "0":
+        specs = specs + corpus_specs(prop)
     if only:
         specs = [s for s in specs if s["id"] in only]
     res = {"mutants": 0, "neutral": 0, "ok": 0, "skipped": [], "failed": [], "details": []}
